@@ -524,8 +524,28 @@ func (k *checker) checkCFList() string {
 			}
 		}
 		if zero {
-			k.zeroCF++ // a zero-frequency channel among the CFList candidates: no documented contract, counted and skipped
-			return ""
+			// A zero-frequency (unused) custom channel among the candidates. CFList slot i configures channel index
+			// nDefault+i on the device and 0 means "slot unused", so the list is positional: the first five candidates as
+			// they are, zeros included. The library's early-out (nil when the first slot is 0) is tolerated.
+			k.zeroCF++
+			var want [5]uint32
+			for i := 0; i < len(elig) && i < 5; i++ {
+				want[i] = elig[i].freq
+			}
+			if cf == nil {
+				if want[0] == 0 {
+					continue
+				}
+				return fmt.Sprintf("%s: GetCFList(%s) is nil; the custom channels with DR %d..%d are, in order, %v: want the first five positionally", k.where(), ver, k.cfLo, k.cfHi, want)
+			}
+			pl, ok := cf.Payload.(*lorawan.CFListChannelPayload)
+			if !ok || cf.CFListType != lorawan.CFListChannel {
+				return fmt.Sprintf("%s: GetCFList(%s) has type %d payload %T, want a channel list", k.where(), ver, cf.CFListType, cf.Payload)
+			}
+			if pl.Channels != want {
+				return fmt.Sprintf("%s: GetCFList(%s) = %v; the first five custom channels with DR %d..%d are, in order, %v (a zero frequency marks an unused slot and keeps its position: slot i configures channel index %d+i on the device)", k.where(), ver, pl.Channels, k.cfLo, k.cfHi, want, len(m.up)-len(elig))
+			}
+			continue
 		}
 		var list []uint32
 		if cf != nil {
@@ -982,7 +1002,7 @@ func checkHistory(c Case) evid.Outcome {
 		cls += "/shadowed-lookup"
 	}
 	if k.zeroCF > 0 {
-		cls += "/cflist-zero-skipped"
+		cls += "/cflist-with-zero-slot"
 	}
 	if k.invalidInput > 0 {
 		cls += "/cflist-caller-freq"
@@ -1175,7 +1195,7 @@ func TestProp(t *testing.T) {
 	r := evid.Begin(t, "C15")
 	defer r.Finish()
 
-	const oracle = " Oracle: a model (slice of channel records {frequency, MinDR, MaxDR, enabled, custom}; AddChannel appends an enabled=(frequency != 0) custom record to uplink and downlink tables on the 11 dynamic plans and fails without effect on US915/AU915/CN470; Disable/Enable flip one flag for 0 <= i < n and fail otherwise). After EVERY step: the five index-set getters equal the model and partition, GetUplinkChannel/GetDownlinkChannel equal the model record by record, and so does the snapshot hook (taken on the fresh band, after every successful AddChannel and on the last step) (so standard channels never change), GetUplinkChannelIndex(f, default) and GetUplinkChannelIndexForFrequencyDR(f, dr) for every channel frequency x {default, custom} x DR {min, max, min-1, max+1} return a matching channel or an error exactly when none matches (all channels on the fresh band, on the last step and after an AddChannel that repeats an existing frequency; the op's channel and the newest channel on the other steps) (a match shadowed by another custom channel on the same frequency is counted, not judged), index n (n+1 too on the fresh band, the last step and after a frequency-repeating AddChannel) and the op's own integers are probed on GetUplinkChannel/GetDownlinkChannel/GetTXPowerOffset/GetRX1DataRateIndex (error, never panic; valid ones give the model value), GetEnabledUplinkDataRates (only while all DR ranges are small) is ascending, covers the enabled channels and nothing no channel has; GetCFList for the 6 protocol versions: fixed plans nil before 1.0.3, else exactly the enabled bits; dynamic plans the first five of the custom channels with the band's CFList DR range in order (disabled ones optional; states with a zero-frequency candidate counted and skipped), nil if none; MAC layer: default and validly added channels through NewChannelReq / DLChannelReq, RX2 default through RXParamSetupReq, ping-slot frequency through PingSlotChannelReq and BeaconFreqReq, the CFList bare and inside a JoinAcceptPayload, the planner's LinkADRReq payloads (device state = standard channels / none / all, one of them per step and all three on the fresh band and the last step) - each must encode and decode to the same values (asserted only for frequencies that are valid caller input: multiple of 100 Hz in 0.1-1 GHz, multiple of 200 Hz in 2.4-2.5 GHz, or 0). ISM2400 frequencies refused with the max-value error by the five 100-Hz encoders are the known finding K3. Non-trivial: at least one successful AddChannel and one successful Disable, or a Disable/Enable with an invalid index."
+	const oracle = " Oracle: a model (slice of channel records {frequency, MinDR, MaxDR, enabled, custom}; AddChannel appends an enabled=(frequency != 0) custom record to uplink and downlink tables on the 11 dynamic plans and fails without effect on US915/AU915/CN470; Disable/Enable flip one flag for 0 <= i < n and fail otherwise). After EVERY step: the five index-set getters equal the model and partition, GetUplinkChannel/GetDownlinkChannel equal the model record by record, and so does the snapshot hook (taken on the fresh band, after every successful AddChannel and on the last step) (so standard channels never change), GetUplinkChannelIndex(f, default) and GetUplinkChannelIndexForFrequencyDR(f, dr) for every channel frequency x {default, custom} x DR {min, max, min-1, max+1} return a matching channel or an error exactly when none matches (all channels on the fresh band, on the last step and after an AddChannel that repeats an existing frequency; the op's channel and the newest channel on the other steps) (a match shadowed by another custom channel on the same frequency is counted, not judged), index n (n+1 too on the fresh band, the last step and after a frequency-repeating AddChannel) and the op's own integers are probed on GetUplinkChannel/GetDownlinkChannel/GetTXPowerOffset/GetRX1DataRateIndex (error, never panic; valid ones give the model value), GetEnabledUplinkDataRates (only while all DR ranges are small) is ascending, covers the enabled channels and nothing no channel has; GetCFList for the 6 protocol versions: fixed plans nil before 1.0.3, else exactly the enabled bits; dynamic plans the first five of the custom channels with the band's CFList DR range in order (disabled ones optional; in states with a zero-frequency candidate the list is positional: exactly the first five candidates, zeros included, or nil when the first is zero), nil if none; MAC layer: default and validly added channels through NewChannelReq / DLChannelReq, RX2 default through RXParamSetupReq, ping-slot frequency through PingSlotChannelReq and BeaconFreqReq, the CFList bare and inside a JoinAcceptPayload, the planner's LinkADRReq payloads (device state = standard channels / none / all, one of them per step and all three on the fresh band and the last step) - each must encode and decode to the same values (asserted only for frequencies that are valid caller input: multiple of 100 Hz in 0.1-1 GHz, multiple of 200 Hz in 2.4-2.5 GHz, or 0). ISM2400 frequencies refused with the max-value error by the five 100-Hz encoders are the known finding K3. Non-trivial: at least one successful AddChannel and one successful Disable, or a Disable/Enable with an invalid index."
 
 	// the K3 witness lives in this sub-check, so it runs first (the framework activates a known class when its witness fails)
 	evid.Rapid(r, t, "valid-histories",
